@@ -12,13 +12,35 @@
    own ancestor" hold by construction); the correspondence compares them with
    the implementation's [_parent]/[_children]/[_tree] after every step. *)
 From Coq Require Import List ZArith Bool Arith Permutation.
-From NT Require Import Sx Rose Surgery Machine WF PreserveOps PreserveSort PreserveCopy PreserveMore Invariant.
+From NT Require Import Sx Rose Surgery Machine WF PreserveSteps PreserveOps PreserveSort PreserveCopy PreserveMore PreserveRelabel PreserveKeepClones Invariant CaseMut CaseWF.
 Import ListNotations.
 
 (* ---- the checker used by the correspondence decides WF ---- *)
 Theorem C01_checker_sound : forall w, wf_world_b w = true <-> WFw w.
 Proof. exact wf_world_b_WFw. Qed.
 Print Assumptions C01_checker_sound.
+
+(* WF is exactly the DESIGN.md 3.2 formulation (plus: 0 denotes the root and is not a node) *)
+Theorem C01_wf_spelled : forall t, WF t ->
+  NoDup (ids (forest_of t))
+  /\ NoDup (reg t) /\ Permutation (reg t) (ids (forest_of t))
+  /\ NoDup (map fst (idx t))
+  /\ Forall (fun e => snd e <> [] /\ NoDup (snd e)) (idx t)
+  /\ (forall n d, In n (idx_get d (idx t)) <-> In (n, d) (keys (forest_of t)))
+  /\ sib_unique (forest_of t).
+Proof. exact WF_spelled. Qed.
+Print Assumptions C01_wf_spelled.
+
+Theorem C01_wf_of_spelled : forall t,
+  NoDup (ids (forest_of t)) -> ~ In 0 (ids (forest_of t)) ->
+  Permutation (reg t) (ids (forest_of t)) ->
+  NoDup (map fst (idx t)) ->
+  Forall (fun e => snd e <> [] /\ NoDup (snd e)) (idx t) ->
+  (forall n d, In n (idx_get d (idx t)) <-> In (n, d) (keys (forest_of t))) ->
+  sib_unique (forest_of t) ->
+  WF t.
+Proof. exact WF_of_spelled. Qed.
+Print Assumptions C01_wf_of_spelled.
 
 Theorem C01_empty_world : WFw empty_world.
 Proof. exact WFw_empty. Qed.
@@ -33,8 +55,8 @@ Theorem C01_step_shortcut : forall w ti n how d explicit k, WFw w -> WFw (snd (o
 Proof. exact WFw_op_shortcut. Qed.
 Print Assumptions C01_step_shortcut.
 
-Theorem C01_step_remove : forall w ti n keep wc, WFw w -> keep && wc = false -> WFw (snd (op_remove w ti n keep wc)).
-Proof. exact WFw_op_remove. Qed.
+Theorem C01_step_remove : forall w ti n keep wc, WFw w -> WFw (snd (op_remove w ti n keep wc)).
+Proof. exact WFw_op_remove_full. Qed.
 Print Assumptions C01_step_remove.
 
 Theorem C01_step_remove_children : forall w ti n, WFw w -> WFw (snd (op_remove_children w ti n)).
@@ -52,6 +74,14 @@ Print Assumptions C01_step_sort.
 Theorem C01_step_meta : forall w ti n o, WFw w -> WFw (snd (op_meta w ti n o)).
 Proof. exact WFw_op_meta. Qed.
 Print Assumptions C01_step_meta.
+
+Theorem C01_step_set_data : forall w ti n d explicit wcl, WFw w -> WFw (snd (op_set_data w ti n d explicit wcl)).
+Proof. exact WFw_op_set_data. Qed.
+Print Assumptions C01_step_set_data.
+
+Theorem C01_step_rename : forall w ti n d, WFw w -> WFw (snd (op_rename w ti n d)).
+Proof. exact WFw_op_rename. Qed.
+Print Assumptions C01_step_rename.
 
 Theorem C01_step_add_node : forall w ti p sti src explicit k b deep,
   WFw w -> WFw (snd (op_add_node w ti p sti src explicit k b deep)).
@@ -96,19 +126,40 @@ Proof. exact WFw_op_tree_from_dict. Qed.
 Print Assumptions C01_step_tree_from_dict.
 
 (* ---- every step, every history ---- *)
-(* the full statement *)
-Definition C01_full_statement : Prop := forall w o, WFw w -> WFw (snd (step w o)).
-Definition C01_history_full_statement : Prop := forall ops w, WFw w -> WFw (run ops w).
+Theorem C01_step : forall w o, WFw w -> WFw (snd (step w o)).
+Proof. exact WFw_step. Qed.
+Print Assumptions C01_step.
 
-(* proved for the operations selected by [covered] (all but set_data / rename and
-   remove(keep_children=True, with_clones=True)) *)
-Theorem C01_step_partial : forall w o, covered o = true -> WFw w -> WFw (snd (step w o)).
-Proof. exact WFw_step_partial. Qed.
-Print Assumptions C01_step_partial.
+Theorem C01_history : forall ops w, WFw w -> WFw (run ops w).
+Proof. exact WFw_run. Qed.
+Print Assumptions C01_history.
 
-Theorem C01_history_partial : forall ops w, forallb covered ops = true -> WFw w -> WFw (run ops w).
-Proof. exact WFw_run_partial. Qed.
-Print Assumptions C01_history_partial.
+(* in particular every world reachable from the empty world *)
+Theorem C01_reachable : forall ops, WFw (run ops empty_world).
+Proof. intros ops. apply WFw_run. exact WFw_empty. Qed.
+Print Assumptions C01_reachable.
+
+(* a refused operation (whatever partial effect it keeps) leaves a well-formed world *)
+Theorem C01_refused_keeps_wf : forall w o e, WFw w -> fst (step w o) = Err e -> WFw (snd (step w o)).
+Proof. intros w o e H _. now apply WFw_step. Qed.
+Print Assumptions C01_refused_keeps_wf.
+
+(* the form the correspondence evaluates: along every case of CaseMut.v (guarded steps), the
+   checker answers true on every model state *)
+Theorem C01_model_flags_true : forall c : mcase, forallb (fun b => b) (wf_flags c) = true.
+Proof. exact wf_flags_true. Qed.
+Print Assumptions C01_model_flags_true.
+
+(* a step only ever adds freshly allocated identities ([Fr]); identities are never reused *)
+Theorem C01_step_frame : forall w o, WFw w ->
+  next w <= next (snd (step w o)) /\
+  forall m, In m (all_ids (snd (step w o))) -> In m (all_ids w) \/ next w <= m.
+Proof. intros w o H. exact (proj2 (WFx_step w o H)). Qed.
+Print Assumptions C01_step_frame.
+
+Theorem C01_never_comes_back : forall ops w m, WFw w -> m < next w -> ~ In m (all_ids w) -> ~ In m (all_ids (run ops w)).
+Proof. exact never_comes_back. Qed.
+Print Assumptions C01_never_comes_back.
 
 (* ---- corollaries spelled out ---- *)
 (* the tree's node count (= len(_node_by_id)) is the number of reachable nodes *)
@@ -128,12 +179,77 @@ Theorem C01_removed_gone : forall w ti n t s,
 Proof. exact removed_branch_gone. Qed.
 Print Assumptions C01_removed_gone.
 
+(* ... and stays out in every continuation of the history *)
+Theorem C01_removed_never_returns : forall w ti n t s ops,
+  WFw w -> get_tree w ti = Some t -> get_node n (forest_of t) = Some s ->
+  forall m, In m (ids_t s) -> ~ In m (all_ids (run ops (snd (op_remove w ti n false false)))).
+Proof. exact removed_never_returns. Qed.
+Print Assumptions C01_removed_never_returns.
+
 Theorem C01_removed_children_gone : forall w ti n t ch,
   WFw w -> get_tree w ti = Some t -> children_of n (forest_of t) = Some ch ->
   exists t', get_tree (snd (op_remove_children w ti n)) ti = Some t' /\
     forall m, In m (ids ch) -> ~ In m (ids (forest_of t')) /\ ~ In m (reg t').
 Proof. exact removed_children_gone. Qed.
 Print Assumptions C01_removed_children_gone.
+
+Theorem C01_removed_keep_gone : forall w ti n t s,
+  WFw w -> get_tree w ti = Some t -> get_node n (forest_of t) = Some s ->
+  fst (op_remove w ti n true false) = Ok [] ->
+  exists t', get_tree (snd (op_remove w ti n true false)) ti = Some t' /\
+             ~ In n (ids (forest_of t')) /\ ~ In n (reg t') /\
+             forall m, In m (ids (forest_of t)) -> m <> n -> In m (ids (forest_of t')).
+Proof. exact removed_keep_gone. Qed.
+Print Assumptions C01_removed_keep_gone.
+
+Theorem C01_removed_clones_gone : forall w ti n t d,
+  WFw w -> get_tree w ti = Some t -> did_of n (forest_of t) = Some d ->
+  exists t', get_tree (snd (op_remove w ti n false true)) ti = Some t' /\
+             forall c, In c (idx_get d (idx t)) -> ~ In c (ids (forest_of t')) /\ ~ In c (reg t').
+Proof. exact removed_clones_gone. Qed.
+Print Assumptions C01_removed_clones_gone.
+
+(* whatever is not reachable is neither counted nor indexed - in every well-formed state, hence
+   after remove / remove_children / clear / filter / del alike *)
+Theorem C01_unreachable_uncounted : forall t n, WF t -> ~ In n (ids (forest_of t)) ->
+  ~ In n (reg t) /\ forall d, ~ In n (idx_get d (idx t)).
+Proof. exact unreachable_uncounted. Qed.
+Print Assumptions C01_unreachable_uncounted.
+
+Theorem C01_cleared_gone : forall w ti t, WFw w -> get_tree w ti = Some t ->
+  exists t', get_tree (snd (op_clear w ti)) ti = Some t' /\ forest_of t' = [] /\ reg t' = [] /\ idx t' = [].
+Proof. exact cleared_gone. Qed.
+Print Assumptions C01_cleared_gone.
+
+Theorem C01_deleted_gone : forall w ti k t n s,
+  WFw w -> get_tree w ti = Some t -> getitem t k = Some [n] -> get_node n (forest_of t) = Some s ->
+  exists t', get_tree (snd (op_del w ti k)) ti = Some t' /\ fst (op_del w ti k) = Ok [] /\
+    forall m, In m (ids_t s) -> ~ In m (ids (forest_of t')) /\ ~ In m (reg t').
+Proof. exact deleted_gone. Qed.
+Print Assumptions C01_deleted_gone.
+
+(* in-place filter: [FBranch v] = the filter removes the branch of node v *)
+Theorem C01_filtered_gone : forall w ti n vd t ch must acts stopped failed,
+  WFw w -> get_tree w ti = Some t -> children_of n (forest_of t) = Some ch ->
+  fvisit vd (T 0 dummy_info ch) false = (must, acts, stopped, failed) ->
+  exists t', get_tree (snd (op_filter w ti n vd)) ti = Some t' /\
+    forall v, In (FBranch v) acts -> ~ In v (ids (forest_of t')) /\ ~ In v (reg t').
+Proof. exact filtered_gone. Qed.
+Print Assumptions C01_filtered_gone.
+
+(* a node of one tree is not a node of another tree ("owner of every reachable node is the tree") *)
+Theorem C01_trees_disjoint : forall w i j ti tj n, WFw w -> i <> j -> get_tree w i = Some ti -> get_tree w j = Some tj ->
+  In n (ids (forest_of ti)) -> ~ In n (ids (forest_of tj)).
+Proof. exact trees_disjoint. Qed.
+Print Assumptions C01_trees_disjoint.
+
+(* derived parent pointers - true by construction of the model, recorded: every node has exactly one
+   parent (the root 0 or a node of the tree, never itself) and occurs once in that parent's child list *)
+Theorem C01_parent_unique : forall t n, WF t -> In n (ids (forest_of t)) ->
+  exists p ch, parent_of n (forest_of t) = Some p /\ (p = 0 \/ In p (ids (forest_of t))) /\ p <> n /\
+               children_of p (forest_of t) = Some ch /\ In n (map rid ch) /\ NoDup (map rid ch).
+Proof. exact parent_total_unique. Qed.
+Print Assumptions C01_parent_unique.
 
 (* ---- non-vacuity: a reachable world with two trees, clones, a moved branch, a deep copy ---- *)
 Definition c01_dd (z : Z) : dat := D z z z false [z].
@@ -149,9 +265,13 @@ Definition c01_ops : list op :=
    OTreeCopy 0;                                     (* tree 1 = deep copy *)
    OCopyTo 0 4 1 0 true BNone true;                 (* refused or copied into tree 1 *)
    ORemove 0 2 false false;
+   ORemove 0 4 true true;                           (* keep_children + with_clones *)
    OSort 0 0 [(1, Some [2%Z]); (4, Some [1%Z])] false false;
-   OMeta 0 1 (MSet [7%Z] (Some (A 1%Z)))].
+   OMeta 0 1 (MSet [7%Z] (Some (A 1%Z)));
+   OAdd 0 1 (c01_dd 20) None None BNone;            (* a second node with data_id 20 *)
+   OSetData 0 4 (Some (c01_dd 50)) None (Some true);  (* re-key the clone group {4, new} *)
+   ORename 0 1 (c01_dd 60)].                        (* refused: data is not a str *)
 Example C01_nonvacuous :
-  wf_world_b (run c01_ops empty_world) = true /\ forallb covered c01_ops = true /\
+  wf_world_b (run c01_ops empty_world) = true /\
   length (trees (run c01_ops empty_world)) = 2 /\ 6 <= length (all_ids (run c01_ops empty_world)).
 Proof. vm_compute. repeat split. repeat constructor. Qed.
